@@ -94,6 +94,31 @@ def generate(rng: random.Random, tier: str) -> dict:
             "keepalive": True}
 
 
+def systematic(tier: str):
+    """Product establishment outcome x exit path x exit instant x answer mode of one request (fixed parameters)."""
+    out = []
+    kinds = ["ok", "status", "connect_error", "empty_stream", "never_announce", "slow_announce", "connect_timeout", "ends_after_comment"]
+    modes = ["200_body", "202_then_event", "event_then_202", "202_silence", "other_status_json", "other_status_plain", "exc", "200_badjson"]
+    for kind in kinds:
+        for path in ["normal", "exception", "cancel_scope", "task_cancel"]:
+            for t in ([None] if path in ("normal", "exception") else [0, 3, 40, 600, 1500]):
+                for mode in (modes if kind in ("ok", "slow_announce") else modes[:1]):
+                    for form in (FORMS if (kind == "ok" and mode == "200_body" and path == "normal") else FORMS[:1]):
+                        est = {"kind": kind, "form": form, "latency": 1, "announce_at": 2, "status": 404, "pre_comment": False}
+                        if kind == "slow_announce":
+                            est["latency"], est["announce_at"] = 0, 1024 - 1
+                        m = {"notif": False, "gap": 0, "mode": mode, "post_latency": 20, "event_at": 30, "hops": 0, "tie": 0, "status": 500,
+                             "exc": "ConnectError", "text": TEXTS[-1], "id": 7 if mode in ("202_silence", "exc") else "r0", "push_after": mode == "202_then_event"}
+                        if mode == "event_then_202":
+                            m["event_at"] = 5
+                        ex = {"path": path, "tie": 0, "hops": 0}
+                        if t is not None:
+                            ex["t"] = t
+                        out.append({"v": 1, "timeout": 1.0, "est": est, "msgs": [m], "pushes": [{"t": 10, "kind": "notification", "text": "plain", "j": 0}],
+                                    "chunk": {"n": 7} if mode == "202_then_event" else None, "death": None, "exit": ex, "keepalive": True})
+    return out
+
+
 def simplify(scn):
     if scn["chunk"]:
         c = copy.deepcopy(scn); c["chunk"] = None; yield c
